@@ -41,6 +41,8 @@ def _mk():
     pass
   return L
 L1, L2 = _mk(), _mk()
+def PD(**kw):
+  return pg.Dict.partial(kw, value_spec=pg.typing.Dict([('a', pg.typing.Any()), ('b', pg.typing.Any())]))
 '''
 
 POOL = [
@@ -65,6 +67,8 @@ POOL = [
     'B(1, 2)', 'B(2, 0)', 'C(1, 2)', 'C(2, 1)', 'C(1, 3)', 'A(A(1))',
     'A(B(1))', "A({'p': 1, 'q': 2})", "A({'q': 2, 'p': 1})", 'A.partial()',
     'C.partial(1)', 'N(1)', 'N(2)', 'L1(1)', 'L2(1)', "A('a')",
+    'PD()', 'PD(a=1)', 'PD(b=1)', 'PD(a=1, b=2)', 'PD(b=2, a=1)', "{'a': N(1)}", '[N(1), 0]',
+    "[{'a': 1, 'c': 0}]", "[{'a': 1, 'b': 2}, 1]", "[{'b': 2, 'a': 1}, 0]",
     '[A(1)]', '[A(2)]', "{'a': A(1)}", '(1, 1)', "pg.Dict(a=A(1))",
 ]
 
@@ -122,6 +126,7 @@ _MODEL_NS = dict(
     B=_model_cls('B', ['x', 'y'], {'y': None}),
     C=_model_cls('C', ['p', 'q']), N=_model_cls('N', ['x']),
     L1=_model_cls('L1', ['x']), L2=_model_cls('L2', ['x']),
+    PD=lambda **kw: {'a': kw.get('a', _MISSING), 'b': kw.get('b', _MISSING)},
 )
 
 
@@ -175,8 +180,8 @@ def _has_perm(a, b):
       gb = b.sym_getattr if isinstance(b, pg.Dict) else b.__getitem__
       return any(_has_perm(ga(k), gb(k)) for k in ka)
     return False
-  if (isinstance(a, (list, tuple)) and isinstance(b, (list, tuple))
-      and len(a) == len(b)):
+  if isinstance(a, (list, tuple)) and isinstance(b, (list, tuple)):
+    # lt looks at the common prefix, whatever the lengths.
     return any(_has_perm(x, y) for x, y in zip(a, b))
   if isinstance(a, pg.Object) and isinstance(b, pg.Object) and type(a) is type(b):
     return any(_has_perm(a.sym_getattr(k), b.sym_getattr(k)) for k in a.sym_keys()
@@ -251,26 +256,34 @@ def _rand_expr(r, depth):
   return f'{cls}({_rand_expr(r, depth - 1)})'
 
 
+_CHECK_NS = None
+
+
+def _constructible(e):
+  """Random expressions that the library refuses to construct are not values."""
+  global _CHECK_NS
+  if _CHECK_NS is None:
+    _CHECK_NS = {'__name__': 'c06chk'}
+    exec(PRE, _CHECK_NS)  # pylint: disable=exec-used
+  try:
+    eval(e, _CHECK_NS)  # pylint: disable=eval-used
+    return True
+  except Exception:  # pylint: disable=broad-except
+    return False
+
+
 def _pool(tier, seed):
   exprs = list(POOL)
-  if tier != 'quick':
-    r = rng(seed, 'c06-pool')
-    seen = set(exprs)
-    tries = 0
-    while len(exprs) < len(POOL) + 70 and tries < 2000:
-      tries += 1
-      e = _rand_expr(r, 3)
-      if e not in seen:
-        seen.add(e)
-        exprs.append(e)
-  else:
-    r = rng(seed, 'c06-pool-q')
-    seen = set(exprs)
-    while len(exprs) < len(POOL) + 12:
-      e = _rand_expr(r, 2)
-      if e not in seen:
-        seen.add(e)
-        exprs.append(e)
+  extra, depth = (40, 2) if tier == 'quick' else (150, 3)
+  r = rng(seed, 'c06-pool-' + tier)
+  seen = set(exprs)
+  tries = 0
+  while len(exprs) < len(POOL) + extra and tries < 20 * extra:
+    tries += 1
+    e = _rand_expr(r, depth)
+    if e not in seen and _constructible(e):
+      seen.add(e)
+      exprs.append(e)
   return exprs
 
 
@@ -327,12 +340,21 @@ def drv_laws(tier, seed):
     r = _call(pg.ne, x, x)
     rec.case(f'ne.irreflexive-same-object/{k}', e, r == ('ok', False), f'pg.ne(a, a) -> {r}',
              _w(e, 'a', 'assert pg.ne(a, a) is False'))
+    # a raise is the same defect as `lt.total` of the pair (a, a): same case id.
     r = _call(pg.lt, x, x)
-    rec.case(f'lt.irreflexive-same-object/{k}', e, r == ('ok', False), f'pg.lt(a, a) -> {r}',
-             _w(e, 'a', 'assert pg.lt(a, a) is False'))
+    if r[0] == 'exc':
+      rec.case(f'lt.total/{_pair_label(x, x)}', (e, e), False, f'pg.lt(a, a) -> {r}',
+               _w(e, 'a', 'assert isinstance(pg.lt(a, b), bool)'))
+    else:
+      rec.case(f'lt.irreflexive-same-object/{k}', e, r == ('ok', False), f'pg.lt(a, a) -> {r}',
+               _w(e, 'a', 'assert pg.lt(a, a) is False'))
     r = _call(pg.gt, x, x)
-    rec.case(f'gt.irreflexive-same-object/{k}', e, r == ('ok', False), f'pg.gt(a, a) -> {r}',
-             _w(e, 'a', 'assert pg.gt(a, a) is False'))
+    if r[0] == 'exc':
+      rec.case(f'lt.total/{_pair_label(x, x)}', (e, e), False, f'pg.gt(a, a) -> {r}',
+               _w(e, 'a', 'assert isinstance(pg.gt(a, b), bool)'))
+    else:
+      rec.case(f'gt.irreflexive-same-object/{k}', e, r == ('ok', False), f'pg.gt(a, a) -> {r}',
+               _w(e, 'a', 'assert pg.gt(a, a) is False'))
     if _plain_unhashable(x):
       H[i] = 'skip'
     else:
@@ -417,14 +439,26 @@ def drv_laws(tier, seed):
           r3 = _call(lambda: y == x)
           rec.case(f'operator.==agrees-reflected/{lab}', key, r3 == req, f'(b == a)={r3} pg.eq(a,b)={req}',
                    _w(ea, eb, 'assert (b == a) == pg.eq(a, b)'))
-          if req[1]:
-            r4 = _call(lambda: hash(x) == hash(y))
-            rec.case(f'operator.hash-equal-for-==/{lab}', key, r4 == ('ok', True), f'{r4}',
-                     _w(ea, eb, 'assert a == b and hash(a) == hash(b)'))
 
   # ---- triples through the tables (first witness per case id is re-checked natively).
   perm = [[_pair_label(xs[i], ys[j]) for j in range(n)] for i in range(n)]
   special = ('permuted-dict-keys', 'same-qualname-classes')
+
+  # Triple laws are checked where the pair laws hold: a triple that contains a
+  # pair already reported (raise / trichotomy violation) adds nothing new.
+  def pair_ok(i, j):
+    if E[i][j] is None or L[i][j] is None or R[i][j] is None:
+      return False
+    return [L[i][j], E[i][j], R[i][j]].count(True) == 1
+  OK = [[pair_ok(i, j) for j in range(n)] for i in range(n)]
+
+  def tid(law, i, j, k):
+    """One id per law and input class; all order laws over triples that involve
+    an order-permuted dict pair share one id (one defect)."""
+    lab = tlabel(i, j, k)
+    if set(lab.split('+')) & set(special):
+      return f'triple-laws/{lab}'
+    return f'{law}/{lab}'
 
   def tlabel(i, j, k):
     labs = {perm[i][j], perm[j][k], perm[i][k]} & set(special)
@@ -440,24 +474,30 @@ def drv_laws(tier, seed):
         rec.cases += n          # nothing to conclude from (i, j): vacuous for all k.
         continue
       Ej, Lj = E[j], L[j]
+      if not OK[i][j]:
+        rec.cases += n
+        continue
+      OKj, OKi = OK[j], OK[i]
       for k in range(n):
         rec.cases += 1
+        if not (OKj[k] and OKi[k]):
+          continue
         if eij:
           if Ej[k] and Ei[k] is False:
-            rec.case(f'eq.transitive/{tlabel(i, j, k)}', (exprs[i], exprs[j], exprs[k]), False,
+            rec.case(tid('eq.transitive', i, j, k), (exprs[i], exprs[j], exprs[k]), False,
                      'eq(a,b) and eq(b,c) but not eq(a,c)',
                      _w(exprs[i], exprs[j], 'assert not (pg.eq(a, b) and pg.eq(b, c)) or pg.eq(a, c)', exprs[k]))
           if Lj[k] and Li[k] is False:
-            rec.case(f'lt.respects-eq-left/{tlabel(i, j, k)}', (exprs[i], exprs[j], exprs[k]), False,
+            rec.case(tid('lt.respects-eq-left', i, j, k), (exprs[i], exprs[j], exprs[k]), False,
                      'eq(a,b) and lt(b,c) but not lt(a,c)',
                      _w(exprs[i], exprs[j], 'assert not (pg.eq(a, b) and pg.lt(b, c)) or pg.lt(a, c)', exprs[k]))
         if lij:
           if Lj[k] and Li[k] is False:
-            rec.case(f'lt.transitive/{tlabel(i, j, k)}', (exprs[i], exprs[j], exprs[k]), False,
+            rec.case(tid('lt.transitive', i, j, k), (exprs[i], exprs[j], exprs[k]), False,
                      'lt(a,b) and lt(b,c) but not lt(a,c)',
                      _w(exprs[i], exprs[j], 'assert not (pg.lt(a, b) and pg.lt(b, c)) or pg.lt(a, c)', exprs[k]))
           if Ej[k] and Li[k] is False:
-            rec.case(f'lt.respects-eq-right/{tlabel(i, j, k)}', (exprs[i], exprs[j], exprs[k]), False,
+            rec.case(tid('lt.respects-eq-right', i, j, k), (exprs[i], exprs[j], exprs[k]), False,
                      'lt(a,b) and eq(b,c) but not lt(a,c)',
                      _w(exprs[i], exprs[j], 'assert not (pg.lt(a, b) and pg.eq(b, c)) or pg.lt(a, c)', exprs[k]))
   rec.keys.add(('triples', n ** 3))
@@ -471,7 +511,7 @@ def drv_laws(tier, seed):
 def drv_sort(tier, seed):
   exprs = _pool(tier, seed)
   n = len(exprs)
-  n_sorts = 150 if tier == 'quick' else 1500
+  n_sorts = 1500 if tier == 'quick' else 15000
   rec = Recorder(
       'C06', 'sorted(key=cmp_to_key(lt-comparator)) never raises and yields the order',
       scope=f'{n_sorts} seeded samples (size 2..12, with repeats, and whole pool) of {n} pool values, 2 shuffles each')
@@ -479,8 +519,16 @@ def drv_sort(tier, seed):
   allv = [(e, v) for e, v in zip(exprs, xs)] + [(e, v) for e, v in zip(exprs, ys)]
   r = rng(seed, 'c06-sort')
 
-  for t in range(n_sorts):
-    if t % 25 == 0:
+  byexpr = {e: v for e, v in zip(exprs, xs)}
+  fixed = [list(p) for p in itertools.permutations(
+      ["[{'b': 2, 'a': 1}]", "[{'a': 1, 'b': 2}, 1]", "[{'a': 1, 'c': 0}]"])]
+  fixed += [list(p) for p in itertools.permutations(["{'a': 1, 'b': 2}", "{'b': 2, 'a': 1}", "{'a': 1, 'b': 3}"])]
+  fixed += [list(p) for p in itertools.permutations(['1', 'True', '1.0', '[1]', 'pg.List([1])'], 4)]
+
+  for t in range(n_sorts + len(fixed)):
+    if t < len(fixed):
+      sample = [(e, byexpr[e]) for e in fixed[t]]
+    elif t % 25 == 0:
       sample = list(allv)
     else:
       size = r.randrange(2, 13)
@@ -526,6 +574,12 @@ def drv_sort(tier, seed):
     key = tuple(e for e, _ in s1)
     lab = _multi_label([v for _, v in sample]) if len(sample) <= 12 else 'whole-pool'
     rec.case(f'sort.never-raises/{lab}', key, True)
+    special = 'permuted-dict-keys' in lab or 'same-qualname-classes' in lab
+    id_ordered = f'sort.order/{lab}' if special else f'sort.result-ordered/{lab}'
+    id_unique = f'sort.order/{lab}' if special else f'sort.unique-up-to-eq/{lab}'
+    if t < len(fixed):
+      s2 = list(reversed(s1))
+      o2 = sorted(s2, key=functools.cmp_to_key(cmp))
     # the result is ordered: no later element is less than an earlier one.
     bad = None
     for p in range(len(o1)):
@@ -538,7 +592,7 @@ def drv_sort(tier, seed):
           pass
       if bad:
         break
-    rec.case(f'sort.result-ordered/{lab}', key, bad is None,
+    rec.case(id_ordered, key, bad is None,
              f'after sorting, {bad and bad[1]} (later) is lt {bad and bad[0]} (earlier)',
              wit_sort.replace('sorted(vals', 'out = sorted(vals') +
              '\nassert not any(pg.lt(out[q], out[p]) for p in range(len(out)) for q in range(p + 1, len(out)))')
@@ -547,7 +601,7 @@ def drv_sort(tier, seed):
       same = all(pg.eq(a[1], b[1]) for a, b in zip(o1, o2))
     except Exception:  # pylint: disable=broad-except
       same = True
-    rec.case(f'sort.unique-up-to-eq/{lab}', key, same,
+    rec.case(id_unique, key, same,
              f'two shuffles sort differently: {[e for e, _ in o1]} vs {[e for e, _ in o2]}',
              PRE + 'import functools\n'
              f'v1 = [{", ".join(e for e, _ in s1)}]\nv2 = [{", ".join(e for e, _ in s2)}]\n'
